@@ -32,7 +32,11 @@ func Minimise(s *Schedule, key string, budget time.Duration, run func(*Schedule)
 
 	// 1. cut the tail after the violation height (blocks are heights: index+2)
 	cut := func() {
-		h := int(bestV.Height) - 1 // block index (height 1 is the genesis block)
+		base := int64(0)
+		if best.Engine.InitialHeight > 1 {
+			base = best.Engine.InitialHeight - 1
+		}
+		h := int(bestV.Height-base) - 1 // block index (the chain's first height is the genesis block)
 		if h >= 1 && h < len(best.Blocks) {
 			c := best.Clone()
 			c.Blocks = c.Blocks[:h]
